@@ -22,12 +22,21 @@
 
   CRAB_ERROR.  `interval::operator+` / `operator-` raise CRAB_ERROR only on `-oo + +oo`, which
   needs an interval whose lower bound is `+oo` or whose upper bound is `-oo`; no operation of
-  the domain produces or stores such an interval (`Env.WF` is an invariant of every operation,
-  proved in `CrabProofs/Lemmas/IDomWF.lean`, and on well-formed operands `Itv.add` / `Itv.sub`
-  are defined: `C08.itv_add_defined`, `C08.itv_sub_defined`; `Itv.div` by a singleton is always
-  defined).  The three operations are therefore used through the total wrappers `addT`, `subT`,
-  `divT` below (value `top` on the unreachable error).  The only reachable CRAB_ERROR is the one
-  of `rename` on vectors of different lengths (`Option`).
+  the domain produces or stores such an interval: `Env.ValWF` holds of top and bottom and is
+  preserved by every operation (`CrabProofs/Lemmas/IDomWF.lean`, `C03.idom_stmt_valwf`,
+  `C03.idom_lattice_valwf`, `C03.idom_history_valwf`), and on such environments the transcriptions
+  with `Option` of the three code paths concerned return `some` of the total functions used here
+  (`C03.idom_no_crab_error_eval`, `_residual`, `_apply`; `Itv.div` is always defined).  The three
+  operations are therefore used through the total wrappers `addT`, `subT`, `divT` below (value
+  `top` on the unreachable error).  The only reachable CRAB_ERROR is the one of `rename` on
+  vectors of different lengths (`Option`).
+
+  Fuel.  The only loop not bounded syntactically is the `do … while` of `solve_large_system`; it is
+  given the fuel `m_max_op + 1`, which is never exhausted (`C03.idom_solver_fuel_exact`).
+
+  Correspondence: harness/h_idom.cpp + Driver/IDomH.lean compare, after every operation of random
+  and hand-written histories, the bottom/top flags, every binding, the exported constraint system
+  and the answers of `entails`, `<=`, `at` with this model.
 -/
 import CrabModel.Scalar.Interval
 import CrabModel.Lin.System
